@@ -323,11 +323,15 @@ def apply_mutation(root: ET.Element, m: Dict[str, Any]) -> Optional[ET.Element]:
 # ---------------------------------------------------------------------------------------------
 
 
-class _Timeout(Exception):
-    pass
+class _Timeout(BaseException):
+    """Not an Exception: the code under test must not be able to swallow it (run.load_model catches Exception)."""
+
+
+_FIRED = [False]
 
 
 def _alarm(signum: int, frame: Any) -> None:
+    _FIRED[0] = True
     raise _Timeout()
 
 
@@ -391,6 +395,7 @@ def run_scenario(sc: Dict[str, Any], scratch: pathlib.Path, opts: Dict[str, Any]
         return obs
     T, V, X = sdk["mods"]["types"], sdk["mods"]["verification"], sdk["mods"]["xmlization"]
     # the XSD generator
+    _FIRED[0] = False
     old = signal.signal(signal.SIGALRM, _alarm)
     signal.setitimer(signal.ITIMER_REAL, float(opts.get("gen_timeout", 20)))
     try:
@@ -402,7 +407,7 @@ def run_scenario(sc: Dict[str, Any], scratch: pathlib.Path, opts: Dict[str, Any]
     except _Timeout:
         r = {"rc": None, "exc": {"type": "Timeout", "msg": "", "frame": ""}, "stderr": "", "timeout": True}
     s10 = s11 = None
-    if r.get("timeout"):
+    if r.get("timeout") or _FIRED[0]:
         obs["gen"] = "timeout"
     elif r["exc"] is not None:
         obs["gen"] = "exception"
